@@ -517,6 +517,8 @@ def _thread_init(it, self, *a, **k):
 
 @model(_threading.Thread.start)
 def _thread_start(it, self):
+    if isinstance(self, SObj):
+        self.fields['ghost_started'] = True
     return None
 
 
@@ -533,7 +535,7 @@ def _thread_alive(it, self):
 @model(_threading.Event)
 def _event(it):
     from .ext import SExt
-    return SExt('event', {})
+    return SExt('event', dict(ops=SList([])))
 
 
 @model(_queue.Queue)
